@@ -9,6 +9,7 @@ pub mod c10;
 pub mod c05;
 pub mod c11;
 pub mod c12;
+pub mod c13;
 pub mod c14;
 pub mod c15;
 pub mod c16;
@@ -30,6 +31,7 @@ pub fn by_id(id: &str) -> Option<Box<dyn DynProperty>> {
         "C10" => Box::new(c10::C10::new()),
         "C11" => Box::new(c11::C11::new()),
         "C12" => Box::new(c12::C12::new()),
+        "C13" => Box::new(c13::C13),
         "C14" => Box::new(c14::C14),
         "C15" => Box::new(c15::C15),
         "C16" => Box::new(c16::C16),
@@ -39,4 +41,4 @@ pub fn by_id(id: &str) -> Option<Box<dyn DynProperty>> {
     })
 }
 
-pub const IDS: &[&str] = &["C01", "C03", "C04", "C05", "C06", "C07", "C08", "C09", "C10", "C11", "C12", "C14", "C15", "C16", "C17", "C20"];
+pub const IDS: &[&str] = &["C01", "C03", "C04", "C05", "C06", "C07", "C08", "C09", "C10", "C11", "C12", "C13", "C14", "C15", "C16", "C17", "C20"];
